@@ -290,8 +290,52 @@ func run(args []string) error {
 			seqs = append(seqs, s)
 		}
 	}
+	// the daemon configuration dimension: everything a Handle / process method
+	// branches on (LogPings, pex.Config.Disabled, DisableNetworking). The base
+	// configuration runs every sequence; the others all orders of length <= 2. With
+	// networking enabled there is no visor behind the block / transaction handlers,
+	// so those runs never deliver the valid introduction (the gate stops the rest).
+	type gcfg struct {
+		name                         string
+		logPings, pexOff, networking bool
+	}
+	type grun struct {
+		cfg gcfg
+		seq []int
+	}
+	var runs []grun
+	baseCfg := gcfg{"LogPings=true pex.Disabled=false DisableNetworking=true", true, false, false}
 	for _, s := range seqs {
-		g, err := daemon.VerifC25NewGate(dc, "1.2.3.4:6000", 1)
+		runs = append(runs, grun{baseCfg, s})
+	}
+	for _, c := range []gcfg{
+		{"LogPings=false pex.Disabled=false DisableNetworking=true", false, false, false},
+		{"LogPings=true pex.Disabled=true DisableNetworking=true", true, true, false},
+		{"LogPings=false pex.Disabled=true DisableNetworking=true", false, true, false},
+		{"LogPings=true pex.Disabled=false DisableNetworking=false", true, false, true},
+		{"LogPings=false pex.Disabled=true DisableNetworking=false", false, true, true},
+	} {
+		for _, s := range seqs {
+			if len(s) > 2 {
+				continue
+			}
+			skip := false
+			for _, ki := range s {
+				if c.networking && kinds[ki].pass {
+					skip = true
+				}
+			}
+			if !skip {
+				runs = append(runs, grun{c, s})
+			}
+		}
+	}
+	for _, run := range runs {
+		s := run.seq
+		dcc := dc
+		dcc.LogPings = run.cfg.logPings
+		dcc.DisableNetworking = !run.cfg.networking
+		g, err := daemon.VerifC25NewGateWith(dcc, run.cfg.pexOff, "1.2.3.4:6000", 1)
 		if err != nil {
 			return err
 		}
@@ -329,11 +373,12 @@ func run(args []string) error {
 		}
 		g.Close()
 		gate = append(gate, List(steps))
-		caseJSON["gate"] = append(caseJSON["gate"], map[string]interface{}{"messages": strings.Join(trace, "; ")})
+		caseJSON["gate"] = append(caseJSON["gate"], map[string]interface{}{"config": run.cfg.name, "messages": strings.Join(trace, "; ")})
+		hist.Add("gate-config:" + run.cfg.name)
 	}
 	o.Def("cases_gate", "list (gate_event * bool * list sent * bool * bool * bool)", gate)
 
-	o.Side["rule"] = fmt.Sprintf("IntroductionMessage.Verify on %d messages: Extra of every length 0..120 with random content (bare / behind the right pubkey / behind pubkey and valid params with a plausible length prefix), a valid Extra (with and without genesis hash) truncated at every offset and extended by 1..70 bytes, user agents (valid, malformed, illegal characters, 256/257 bytes), every combination of boundary burn factor / max txn size / decimals, length prefixes (n-1, n+1, 256, 257, 2^31, 2^32-1) x tails, genesis tails 0..65, single bit flips of the pubkey, mirror / version boundaries; gate: %d sequences of 13 message kinds (2 introductions + 11 others; all orders of length <= 3) delivered to a daemon with one fresh connection, recording what it queues for the peer. Non-trivial = Verify got past the pubkey comparison, or any gate sequence; distinct by message / sequence", len(ver), len(seqs))
+	o.Side["rule"] = fmt.Sprintf("IntroductionMessage.Verify on %d messages: Extra of every length 0..120 with random content (bare / behind the right pubkey / behind pubkey and valid params with a plausible length prefix), a valid Extra (with and without genesis hash) truncated at every offset and extended by 1..70 bytes, user agents (valid, malformed, illegal characters, 256/257 bytes), every combination of boundary burn factor / max txn size / decimals, length prefixes (n-1, n+1, 256, 257, 2^31, 2^32-1) x tails, genesis tails 0..65, single bit flips of the pubkey, mirror / version boundaries; gate: %d sequences of 13 message kinds (2 introductions + 11 others; all orders of length <= 3) delivered to a daemon with one fresh connection, recording what it queues for the peer; plus all orders of length <= 2 under every other daemon configuration the handlers branch on (LogPings off, pex disabled, networking enabled: %d runs in all). Non-trivial = Verify got past the pubkey comparison, or any gate sequence; distinct by message / sequence", len(ver), len(seqs), len(runs))
 	o.Side["distribution"] = hist.Sorted()
 	o.Side["samples"] = samples
 	o.Side["cases"] = caseJSON
